@@ -348,7 +348,7 @@ def run(rep):
             return ('tuple', (('sym', 'OBS'), ('sym', 'ENS'), ('sym', 'nforc'), ('sym', 'nens')))
         return None
     ppaths = [p_ for p_ in pq.PEval(resolve).run(pf) if p_.how == "return"]
-    rnd = [p_ for p_ in ppaths if any(t and c == ('sym', 'random') for c, t in p_.conds)]
+    rnd = [p_ for p_ in ppaths if pq.cond_truth(pq.flat_conds(p_.conds), ('sym', 'random')) is True]
     okp, det = False, "random-branch path not found"
     CST = "min(0.5, cst)"
     if len(rnd) == 1 and rnd[0].value[0] == 'tuple':
@@ -384,6 +384,8 @@ def run(rep):
     MASK = "(OBS < censor + EPS) & np.any(ENS < censor + EPS, axis=1)"
     for p_ in ppaths:
         fl = p_.value[1][1] if p_.value[0] == 'tuple' and len(p_.value[1]) == 2 else None
+        if fl is not None and pq.same(fl, MASK):
+            continue                      # the flag vector is the mask itself
         ok1 = fl is not None and pq.call_named(fl, "setitem") and pq.same(fl[2][1], MASK) and pq.same(fl[2][2], "True") and \
             (pq.call_named(fl[2][0], "zeros") or (pq.call_named(fl[2][0], "astype") and pq.call_named(fl[2][0][2][0], "zeros")) or
              (pq.call_named(fl[2][0], "full") and pq.same(fl[2][0][2][1], "False")))
